@@ -22,7 +22,7 @@ class Abort(BaseException):
 
 class LT(object):
     __slots__ = ("s", "tid", "name", "sem", "blocked_on", "wake_at", "done", "timed_out", "daemon",
-                 "real", "exc")
+                 "real", "exc", "quiet_held")
 
     def __init__(self, s, name, daemon=False):
         self.s = s
@@ -36,6 +36,7 @@ class LT(object):
         self.daemon = daemon
         self.real = None
         self.exc = None
+        self.quiet_held = 0      # quiet locks held: sections the harness treats as free of scheduling points (line mode too)
 
     def ready(self):
         if self.blocked_on is None:
@@ -163,7 +164,7 @@ def _line_tracer(frame, event, arg):
                 return _line_tracer
         if s is not None and s.line_rng is not None and not s.aborting and not s.quiet:
             cur = getattr(_local, "lt", None)
-            if cur is not None and cur.s is s and cur.blocked_on is None and s.line_rng.random() < s.line_p:
+            if cur is not None and cur.s is s and cur.blocked_on is None and not cur.quiet_held and s.line_rng.random() < s.line_p:
                 s.line_switches += 1
                 switch("line")
     return _line_tracer
@@ -298,6 +299,7 @@ class DLock(object):
                 raise RuntimeError("contention on a quiet lock")
             self.owner = cur
             self.count = 1
+            cur.quiet_held += 1
             return True
         switch("acq")
         if self.owner is not None:
@@ -324,6 +326,10 @@ class DLock(object):
             if not self.quiet:
                 S.emit("rel", self._role())
                 switch("rel")
+            else:
+                cur = me()
+                if cur is not None and cur.quiet_held > 0:
+                    cur.quiet_held -= 1
 
     def locked(self):
         return self.owner is not None
